@@ -1,12 +1,12 @@
 #!/bin/sh
 # setup.sh — builds the whole framework from files on disk only (offline):
-# source facts from /repo, the full Coq development (.vo, no -vos), extraction, OCaml driver.
+# source facts from /repo, the full Coq development (.vo, no -vos), extraction, OCaml drivers.
 set -e
 cd "$(dirname "$0")/.."
 python3 tools/gen_facts.py /repo coq/gen
+sh tools/coqproject.sh
 cd coq
-coq_makefile -f _CoqProject -o Makefile >/dev/null
-timeout 7200 make -j16 2>&1 | grep -v "^COQC\|^COQDEP\|conda\|pyenv\|shims" | tail -20
+timeout 7200 make -k -j16 2>&1 | grep -v "^COQC\|^COQDEP\|conda\|pyenv\|shims\|^Closed under\|^Axioms:" | tail -30
 cd ..
-sh ocaml/build.sh
+for f in coq/Extract_*.v; do a=$(basename $f .v); a=${a#Extract_}; sh ocaml/build.sh $a || echo "driver $a failed"; done
 echo "setup done"
